@@ -38,6 +38,18 @@ template <typename Base> struct Tracked : Base {
     void *alloc(std::size_t sz) { void *p = Base::alloc(sz); live_add(p, sz); return p; }
     static void dealloc(void *p, std::size_t sz) { live_remove(p, sz); Base::dealloc(p, sz); }
 };
+template <std::size_t N> struct Elem { char b[N]; };
+template <typename B> struct BufTracked : Tracked<cocls::reusable_buffer_storage<B>> {   // the block is the user's buffer: it must be large enough for the frame
+    using Tracked<cocls::reusable_buffer_storage<B>>::Tracked;
+    B *buf = nullptr;
+    void *alloc(std::size_t sz) {
+        void *p = Tracked<cocls::reusable_buffer_storage<B>>::alloc(sz);
+        std::size_t have = buf->size() * sizeof(typename B::value_type);
+        if (p != (void *)buf->data()) dsim::fail("C19.foreign_block", "reusable_buffer_storage returned %p, the buffer is at %p", p, (void *)buf->data());
+        if (have < sz) dsim::fail("C19.block_too_small", "reusable_buffer_storage: frame of %zu bytes was given a buffer of %zu elements x %zu bytes = %zu bytes", sz, buf->size(), sizeof(typename B::value_type), have);
+        return p;
+    }
+};
 struct Extra { long tag; Extra() : tag(0) { dsim::cell_add(EXTRA_CTOR, 1); } explicit Extra(long t) : tag(t) { dsim::cell_add(EXTRA_CTOR, 1); } Extra(const Extra &o) : tag(o.tag) { dsim::cell_add(EXTRA_CTOR, 1); } ~Extra() { dsim::cell_add(EXTRA_DTOR, 1); } };
 
 // frames of different sizes: the padding array lives in the frame and carries canaries
@@ -130,10 +142,22 @@ void dsim_scenario() {
         using S = Tracked<cocls::placement_alloc>; S s(buf);
         reuse_sequence<S>("placement", [&](auto fn) { return fn(s); }, true);
         break; }
-    case 5: {
-        std::vector<long> buffer;
-        using S = Tracked<cocls::reusable_buffer_storage<std::vector<long>>>; S s(buffer);
-        reuse_sequence<S>("reusable_buffer", [&](auto fn) { unsigned long r = fn(s); return r; }, true);
+    case 5: {   // user-supplied buffer of any element type: the block must hold the frame also when the element size does not divide the frame size
+        int et = dsim::choose(5);
+        auto with_buffer = [&](auto elem, const char *name) {
+            using E = decltype(elem); using B = std::vector<E>;
+            B buffer;
+            if (dsim::flip()) buffer.resize(1 + dsim::choose(40));     // the user may hand in a buffer that already has some (too small or sufficient) size
+            using S = BufTracked<B>; S s(buffer); s.buf = &buffer;
+            reuse_sequence<S>(name, [&](auto fn) { unsigned long r = fn(s); return r; }, true);
+        };
+        switch (et) {
+        case 0: with_buffer(long(0), "reusable_buffer<long>"); break;
+        case 1: with_buffer(char(0), "reusable_buffer<char>"); break;
+        case 2: with_buffer(Elem<12>{}, "reusable_buffer<12 bytes>"); break;
+        case 3: with_buffer(Elem<24>{}, "reusable_buffer<24 bytes>"); break;
+        default: with_buffer(Elem<3>{}, "reusable_buffer<3 bytes>"); break;
+        }
         break; }
     case 6: case 7: {   // attached extra object
         Plan p = draw_plan(); dsim::plan_note("extra over %s:", policy == 6 ? "default" : "reusable"); note_plan(p);
